@@ -226,6 +226,7 @@ def s_const_repr(_ctx):
         cases.append((np.array(v, dtype=np.int64), f"INT64 scalar {v}"))
         cases.append((np.array([v], dtype=np.int64), f"INT64[1] [{v}]"))
     cases.append((np.array([], dtype=np.float32), "FLOAT[0]"))
+    cases.append((np.array([], dtype=np.int64), "INT64[0]"))
     # other element types: a bare Python literal is read back by the converter as FLOAT / INT64 / BOOL (C12), so a
     # constant of another type may only be inlined if the text carries its type
     for dt, vals in ((np.float64, [1e-60, 1e300, 1 / 3, 2.5]), (np.float16, [0.5]), (np.int32, [7, -1]), (np.uint8, [200]),
@@ -245,7 +246,8 @@ def s_const_repr(_ctx):
             first = val[0] if isinstance(val, (list, tuple)) and val else val
             natural = np.bool_ if isinstance(first, bool) else (np.int64 if isinstance(first, int) else np.float32)
             if isinstance(val, (list, tuple)) and not val:
-                natural = arr.dtype
+                # an empty literal carries no element type: the converter refuses it ("dtype must be specified when value is an empty sequence")
+                raise ValueError("an empty list literal has no element type; the converter refuses it")
             got = np.array(val, dtype=natural).reshape(arr.shape)
             same_type = np.dtype(natural) == arr.dtype
             ok = same_type and (got.tobytes() == arr.tobytes() or (np.array_equal(got, arr, equal_nan=True) and not np.any(np.signbit(got) != np.signbit(arr))))
